@@ -520,6 +520,10 @@ Section Codecs.
 
 End Codecs.
 
+Arguments s_ram {blob}.
+Arguments s_fs {blob}.
+Arguments s_pase {blob}.
+Arguments s_kv {blob}.
 Arguments KStore {blob}.
 Arguments KRemove {blob}.
 Arguments EKv {blob}.
